@@ -684,6 +684,18 @@ func (h *Hist) OpStats() {
 			h.W.Fail(h.Rule+".immutable", "served", "archived week %d is served differently from the record first archived", i)
 		}
 	case 3: // future
+		if c.Chance("beyond-32-bits", 1, 3) {
+			// A week offset that does not fit 32 bits (it is aligned, and
+			// its low 32 bits name a week that exists): far in the future.
+			// 63 * 2^32 is a multiple of 2016 whose low 32 bits are zero.
+			off := uint64(63)<<32*uint64(1+c.Int("wraps", 3)) + uint64(m.Offset)*uint64(c.Int("plus-live", 2))
+			res := n.Get(fmt.Sprintf("/api/v1/all-device-stats?timeslot_offset=%d", off))
+			if res.Status == 200 {
+				h.W.Fail(h.Rule+".refuse", "future-64-bit", "timeslot_offset=%d (beyond 32 bits, far in the future) was served", off)
+			}
+			h.W.Probe("hist.stats-offset-beyond-32-bits")
+			return
+		}
 		_, st := n.GetStats(m.Offset+4032+uint32(c.Int("weeks", 3))*2016, falseNeg)
 		if st == 200 {
 			h.W.Fail(h.Rule+".refuse", "future", "a future week was served")
